@@ -191,3 +191,27 @@ check("C33", "PVM",
       floors={"any": {"calls_machine": 5000, "calls_pages": 5000, "calls_poke": 5000, "calls_peek": 5000, "calls_invoke": 5000, "calls_expunge": 2000,
                       "copies_ok_peek": 50, "copies_ok_poke": 30, "invoke_exit_0": 50, "invoke_exit_1": 200, "invoke_exit_2": 200, "invoke_exit_3": 100, "invoke_exit_4": 100,
                       "pages_ok_mode_0": 200, "pages_ok_mode_1": 200, "pages_ok_mode_2": 200, "pages_ok_mode_3": 100, "pages_ok_mode_4": 100}})
+
+check("C16", "internal/blockchain",
+      rule="case = one history of 3..42 steps over a key-value set with keys from shared-prefix families: add (1..12 entries, or capacity/2..3*capacity/2 entries in every 8th history), change values (one bit, across the 32-byte embedded/hashed boundary, one byte appended/dropped, fresh), restore an earlier value (A->B->A), remove, re-add a removed key with another value, explicit cache clear, recompute unchanged; "
+           "3 of 4 histories start on the cache left by earlier histories. After EVERY step ChainState.ComputeStateRootWithCache (input sorted or shuffled) is compared with MerklizationSerializedState from scratch and with the explicit insertion trie (reftrie); the input must not be modified (MaxKeyLevelCacheSize is read at run time: 600). "
+           "Plus KeyLevelCache.GetOrComputeLeafHash on random (key, value) histories vs EncodeLeafNodeHash. distinct_nontrivial = distinct histories (by the sequence of model roots) + kcache cases",
+      technique="differential monitor over histories (cached root vs from-scratch root vs independent trie model after every step), cache length observed in-package to witness evictions at capacity",
+      level_text="After every step of generated histories the cached root is compared with the uncached root and an independent trie model; held = equal on what was explored.",
+      note="The harness is an in-package test (reads keyLevelCache.Len() to witness evictions); only evictions that shrink the cache are counted. Trusts reftrie (C15's model).",
+      shards=(8, 16), env={"JAM_FUZZ": "1"},
+      floors={"any": {"roots_compared": 20000, "steps_changing_values": 3000, "steps_restoring_an_earlier_value": 300, "explicit_clears": 1000, "computations_with_eviction_at_capacity": 20,
+                      "computations_all_hits": 1000, "computations_on_a_warm_cache": 15000, "kcache_lookups": 20000}},
+      assumptions=[STANDIN_VRF])
+
+check("C27", "internal/zzverif/c27",
+      rule="case = one sequence of 5..64 operations (put, delete, get+has, open up to 3 batches, batch put/delete, commit or discard a batch in any interleaving, iterate(prefix,start)) replayed identically on the memory provider, Pebble (in-memory VFS) and the Redis provider (against miniredis); keys of 1..4 bytes over a 17-symbol alphabet that contains the SCAN glob metacharacters * ? [ ] \\ ^ -, 0x00 and 0xFF (a 3-symbol alphabet in every 3rd case, the 14 ASCII symbols in another third; sequences with bytes >= 0x80 are not driven through miniredis, which panics on non-UTF-8 SCAN patterns), "
+           "iteration ranges derived from existing keys (prefix = any cut, start = any cut of the rest, last byte +-1). Every key/value/prefix/start slice passed in is scrambled right after the call and every slice returned by Get is scrambled and read again. "
+           "Compared with an ordered-map model: get/has results, iteration key list (membership AND order) and values, invisibility of uncommitted or discarded batches, the whole content every 4 steps. distinct_nontrivial = distinct (operation trace, final content)",
+      technique="reference-model monitor (ordered map) over operation sequences, replayed on the three providers, with argument/result scrambling as aliasing monitor",
+      level_text="Every observable result of generated operation sequences on all three providers is compared with an ordered-map model; held = no divergence on what was explored.",
+      note="Redis is the repository's provider against miniredis v2.34 (the server the repository's own test uses), not a real server. Empty keys, use after Close and concurrent use are not generated; iterators are consumed immediately (the documented validity of Key()/Value() is 'until Next').",
+      shards=(8, 16),
+      floors={"any": {"puts": 20000, "deletes": 10000, "gets": 20000, "batch_writes": 20000, "batches_committed_with_several_ops": 2000, "batches_discarded": 2000, "iterations_memory": 3000, "iterations_pebble": 3000, "iterations_redis": 2000, "ops_memory": 5000, "ops_pebble": 5000, "ops_redis": 3000,
+                      "iterations_proper_subset": 2000, "iterations_nonempty_with_start": 1000, "full_content_comparisons": 20000}},
+      assumptions=[STANDIN_VRF, "miniredis stands in for a Redis server"])
